@@ -86,10 +86,24 @@ def newMessageId (st : Store) : Store × Nat :=
 
 def setAdd (l : List Nat) (k : Nat) : List Nat := if k ∈ l then l else l ++ [k]
 
+/-- `[k for k, v in self._file_store.items() if iwa_file in k and isinstance(v, IWAFile)]` with the archives of each:
+    only IWA members are candidates for a new object (fixes/C19-new-objects-go-to-iwa-members.patch); any other blob
+    (`Metadata/DocumentIdentifier`, `preview.jpg`, …) is passed over whatever its name -/
+def iwaPaths (files : List (List Char × Option (List Nat))) (iwaFile : List Char) : List (List Char × List Nat) :=
+  files.filterMap fun f => match f.2 with
+    | some segs => if isInfix iwaFile f.1 then some (f.1, segs) else none
+    | none => none
+
+/-- the candidates of the pinned code: `[k for k in self._file_store if iwa_file in k]`, blobs included — taking the first of
+    these raised AttributeError (`bytes` has no `.chunks`) when it was not an IWA member.  Kept for the counter-example only. -/
+def pathsPinned (files : List (List Char × Option (List Nat))) (iwaFile : List Char) : List (List Char × Option (List Nat)) :=
+  files.filter (fun f => isInfix iwaFile f.1)
+
 /-- `create_object_from_dict(iwa_file, …, append)`: the state after the call (also when it raises:
-    the identifier has been consumed by then) and the new identifier or the exception. -/
+    the identifier has been consumed by then) and the new identifier or the exception.  The archive goes to the FIRST IWA
+    member whose name contains `iwa_file`; no such member: a new member `iwa_file.format(id) + ".iwa"` (KeyError with `append`). -/
 def createObject (st : Store) (iwaFile : List Char) (append : Bool) : Store × PyM Nat :=
-  let paths := st.files.filter (fun f => isInfix iwaFile f.1)
+  let paths := iwaPaths st.files iwaFile
   let (st1, newId) := newMessageId st
   match paths with
   | [] =>
@@ -99,11 +113,8 @@ def createObject (st : Store) (iwaFile : List Char) (append : Bool) : Store × P
       ({ st1 with files := dictSet st1.files path (some [newId]), ids := setAdd st1.ids newId,
                   fileOf := dictSet st1.fileOf newId path }, .ok newId)
   | (path, segs) :: _ =>
-    match segs with
-    | none => (st1, .error .AttributeError)   -- a non-IWA blob has no `.chunks`
-    | some segs =>
-      ({ st1 with files := dictSet st1.files path (some (segs ++ [newId])), ids := setAdd st1.ids newId,
-                  fileOf := dictSet st1.fileOf newId path }, .ok newId)
+    ({ st1 with files := dictSet st1.files path (some (segs ++ [newId])), ids := setAdd st1.ids newId,
+                fileOf := dictSet st1.fileOf newId path }, .ok newId)
 
 def addExternalRef : List Component → List Char → Nat → Option (List Component)
   | [], _, _ => none
